@@ -6,7 +6,12 @@ pub mod c01;
 pub mod c02;
 pub mod c03;
 pub mod c05;
+pub mod c08;
 pub mod c12;
+pub mod c15;
+pub mod c13;
+pub mod meta;
+pub mod values;
 pub mod stmt;
 
 pub fn run(prop: &str, ctx: &Ctx) -> Option<Report> {
@@ -15,6 +20,13 @@ pub fn run(prop: &str, ctx: &Ctx) -> Option<Report> {
         "C02" => c02::run(ctx),
         "C03" => c03::run(ctx),
         "C05" => c05::run(ctx),
+        "C06" => values::run_c06(ctx),
+        "C07" => values::run_c07(ctx),
+        "C08" => c08::run(ctx),
+        "C15" => c15::run(ctx),
+        "C09" => meta::run_c09(ctx),
+        "C13" => c13::run(ctx),
+        "C14" => meta::run_c14(ctx),
         "C10" => stmt::run_c10(ctx),
         "C12" => c12::run(ctx),
         "C16" => stmt::run_c16(ctx),
